@@ -1,8 +1,9 @@
 From Coq Require Import Extraction ExtrOcamlBasic NArith ZArith List.
-From Storage Require Import Base.Bytes Query.Compare Query.Paging Query.ScanUnique Query.ScanSort Query.ChildScan.
+From Storage Require Import Base.Bytes Query.Compare Query.Paging Query.ScanUnique Query.ScanSort Query.ChildScan Query.Provider.
 Extraction Language OCaml.
 Definition force_types : nat * N * Z := (O, 0%N, 0%Z).
 Extraction "c02_model.ml" force_types query_ids query_ids_legacy query_spec iterate_ids iterate_ids_legacy
   scan_sorting scan_unique page row_cmp row_no_nan
   child_query_ids child_scan_sorting child_iterate_ids store_rows in_store
-  exec mutate run_prog pure_prog spec_prog effective_paging.
+  exec mutate run_prog pure_prog spec_prog effective_paging
+  cand_mem provider_query_ids provider_scan_sorting provider_query_spec.
